@@ -9,7 +9,7 @@ C07 = importlib.util.module_from_spec(_spec)
 _spec.loader.exec_module(C07)
 
 RULE = ("conn_run with one or two requests of every role; stream contents 0..400 bytes in 1..many records with management / unknown-type records "
-        "mid-stream; handler scripts mixing read(buf of 0,1,7,64,1000 bytes), fill_buf+consume(k), set_stream(next), writeable() in random order, "
+        "mid-stream; handler scripts mixing read(buf of 0,1,7,64,1000 bytes), fill_buf+consume(k), set_stream(next), writeable(), a read polled ONCE and abandoned followed by is_writeable() in random order, "
         "reads continued past end-of-stream; transport reads of 1..n bytes or Pending at any call, writes accepting 1..n bytes or Pending (so "
         "that reply flushing is interrupted). Oracle: per stream the delivered bytes are a prefix of that stream's content, end-of-file persists, "
         "a zero-length read returns 0, after set_stream only bytes of the new stream appear, writeable only at creation for roles with <= 1 input "
@@ -33,10 +33,29 @@ def gen_handler(rng, role):
         elif r < 0.9:
             ops.append(("writeable",))
             cur = max(cur, len(streams) - 1)
+        elif r < 0.95:
+            # poll a read once without awaiting it; a pending read is abandoned; is_writeable() is observed
+            ops.append(("poll1", rng.choice([0, 1, 7, 64])))
         else:
             ops.append(("readall",))
     ops.append(("ret", 0, 0))
     return ops
+
+
+def gate_probe_case(rng):
+    """Filter request whose Stdin is still open (its terminator sits in a segment the client never releases): the handler selects
+    Data (set_stream or a started, abandoned read) and probes: the request must NOT report itself writeable"""
+    B = rng.choice([64, 256])
+    rid = 1
+    first = minimal_preamble(rid, 3, flags=0) + [record(STDIN, rid, [rng.randrange(256) for _ in range(rng.choice([1, 10, 40]))], rng.choice([0, 3]))]
+    if rng.random() < 0.5:
+        first.append(record(GETVALUES, 0, gv_body(rng), 0))
+    later = [record(STDIN, rid, [], 0), record(DATA, rid, [7, 7], 0), record(DATA, rid, [], 0)]
+    segs = [(0, 0, flat(first)), (0, 99, flat(later))]          # gate never met: the rest is never delivered
+    h = [("set", DATA)] + [("poll1", rng.choice([1, 8, 64]))] * rng.randrange(1, 4) + [("ret", 0, 0)]
+    rs = rng.choice([[], [1] * 200, [0, 5, 0, 10 ** 6] * 30])
+    ws = rng.choice([[], [0, 3, 0, 10 ** 6] * 10])
+    return conn_case(B, 1, segs, [h], rs, ws, rng.choice([0, 1])), ["reads", "switch", "gate-probe"]
 
 
 def one(rng):
@@ -64,6 +83,8 @@ def one(rng):
 def gen_cases(rng, tier):
     for _ in range(1200 if tier == "quick" else 60000):
         yield one(rng)
+    for _ in range(30 if tier == "quick" else 1000):
+        yield gate_probe_case(rng)
 
 
 def nontrivial(line, tags):
@@ -71,7 +92,7 @@ def nontrivial(line, tags):
 
 
 def min_classes(tier):
-    return {"mixed": 400, "switch": 400, "zero-read": 200}
+    return {"mixed": 400, "switch": 400, "zero-read": 200, "gate-probe": 30}
 
 
 def oracle(line, impl_line):
@@ -80,8 +101,8 @@ def oracle(line, impl_line):
         return "connection task crashed or panicked"
     cfg, rscript, wscript, segs, scripts = C07.decode_case(line)
     head, cons, wlog, inv, shut = C07.parse_events(o)
-    if head[0] == 1:
-        return "deadlock"
+    if head[0] == 1 and not any(s[1] >= 90 for s in segs):
+        return "deadlock"          # (the gate-probe client never releases its last segment: the task legitimately ends up waiting)
     for j, iv in enumerate(inv):
         rr, _ = parse_records(segs[j][2])
         b = [r for r in rr if r[0] == BEGIN][0]
@@ -107,6 +128,23 @@ def oracle(line, impl_line):
                     if streams and ev[3] != streams[-1]:
                         return "after writeable() the active stream is %d, not the role's final stream" % ev[3]
                     active = ev[3] or None
+            elif ev[0] == 11:
+                # one poll of a read, then is_writeable(): the gate may be open only if it was open at creation, or the final stream
+                # is active and every earlier stream of this request has ended IN THE BYTES THE CLIENT EVER RELEASES
+                if ev[3] == 1 and len(streams) > 1:
+                    released = [r for s in segs if s[1] < 90 for r in parse_records(s[2])[0]]
+                    for t in streams[:-1]:
+                        if not any(r[0] == t and r[1] == rid and not r[2] for r in released) and \
+                           not any(r[0] == streams[-1] and r[1] == rid for r in released):
+                            return "the request reports itself writeable although stream %d has neither ended nor been passed" % t
+                if ev[1] == 1 and ev[2]:
+                    if active is None:
+                        return "bytes delivered although no stream is active"
+                    if eof[active]:
+                        return "bytes delivered after end-of-file was reported for the stream"
+                    got[active] += d
+                elif ev[1] == 1 and ev[2] == 0 and op[1] > 0 and active:
+                    eof[active] = True
             elif ev[0] == 1:
                 if ev[1] == 1:
                     n = ev[2]
